@@ -26,6 +26,7 @@ CONSTANTS U,          \* universe of hashes <<hi, lo>>
           MaxDepth,   \* bound on history length (state constraint)
           Q0s,        \* initial quotient sizes
           Autos,      \* initial auto_expand settings
+          Queries,    \* BOOLEAN: look-ups are operations of the history
           RszArgs,    \* arguments tried for resize (0 = None/double)
           MergeOps,   \* set of <<T, q2>>: second operand of a merge (set held, its quotient size)
           NPARTS, PART,  \* emission partition
@@ -173,6 +174,7 @@ Step(st, a, o) ==
     [] o[1] = "rem" -> RemStep(st, o[2])
     [] o[1] = "rsz" -> RszStep(st, a, o[2])
     [] o[1] = "mrg" -> MrgStep(st, a, o[4])
+    [] o[1] = "chk" -> [S |-> st.S, q |-> st.q, cnt |-> st.cnt, err |-> FALSE]      \* a look-up changes nothing (C19)
 
 (* a merge carries the second filter's set, its quotient size and (derived once) the order in which
    its hashes() generator yields them, which is the order merge() adds them in *)
@@ -180,6 +182,8 @@ MergeOpSet == {<<"mrg", m[1], m[2], DecodedHashes(m[1], m[2])>> : m \in MergeOps
 
 Ops == {<<"add", h>> : h \in U} \cup {<<"rem", h>> : h \in U}
        \cup {<<"rsz", x>> : x \in RszArgs} \cup MergeOpSet
+       \cup (IF Queries THEN {<<"chk", h>> : h \in U} ELSE {})
+          \* look-ups as operations of the history (with ViewH): the code may keep state across them (a memo of the last slot found)
 
 Init == /\ q \in Q0s /\ auto \in Autos
         /\ S = {} /\ cnt = 0
@@ -198,6 +202,7 @@ Next == \E o \in Ops : Do(o)
 Spec == Init /\ [][Next]_vars
 
 View == <<S, q, cnt, auto, c0>>
+ViewH == <<S, q, cnt, auto, c0, hist>>          \* enumerate histories (see CountMin.tla)
 Bound == Cardinality(S) <= MaxEl /\ Len(hist) <= MaxDepth
 
 -----------------------------------------------------------------------------
